@@ -138,21 +138,54 @@ def inline_spec(eng, st, spec: SpecFunc, args):
     """Non-recursive spec functions are transparent: their body is evaluated in place (paths merged by ite).
     A path on which the body raises leaves the value unspecified there (fresh uninterpreted value)."""
     from .builtins import encode_elem, decode_elem, elem_sort
+    try:
+        ckey = (spec.name,) + tuple(encode_elem(eng, st, a, t).get_id() for a, (_, t) in zip(args, spec.params))
+    except Exception:
+        ckey = None
+    cur_ids = None
+    if ckey is not None and ckey in _INLINE_CACHE:
+        cur_ids = {c.get_id() for c in st.pc}
+        for pcids, val, facts, _keep in _INLINE_CACHE[ckey]:
+            if pcids <= cur_ids:
+                for c in facts:
+                    if c.get_id() not in st.facts:
+                        st.fact(c)
+                return val
     scratch = st.clone()
     base_len = len(scratch.pc)
     eng.push_frame(scratch, None, spec.modname, spec.name)
     for (pname, _), a in zip(spec.params, args):
         scratch.env.f[pname] = a
-    res = eng.exec_block(spec.node.body, scratch)
+    saved_nofeas = eng.nofeas
+    eng.nofeas = True            # inside a transparent spec function both sides of every test are kept (no solver calls)
+    try:
+        res = eng.exec_block(spec.node.body, scratch)
+    finally:
+        eng.nofeas = saved_nofeas
+    new_facts = []
+    for s2, _ in res:
+        for c in s2.pc[base_len:]:
+            if c.get_id() in s2.facts:
+                new_facts.append(c)
+    for s2, _ in res:
+        for c in s2.pc[base_len:]:
+            if c.get_id() in s2.facts and c.get_id() not in st.facts:
+                st.fact(c)
     srt = elem_sort(eng, spec.result)
     acc = z3.Const(fresh_name("unspec_" + spec.name), srt)
     for s2, o in reversed(res):
         if isinstance(o, Raised) or o is None or o[0] != "return":
             continue
-        cond = s2.pc[base_len:]
+        cond = [c for c in s2.pc[base_len:] if c.get_id() not in s2.facts]
         rhs = encode_elem(eng, s2, o[1], spec.result)
         acc = z3.If(z3.And(*cond), rhs, acc) if cond else rhs
-    return decode_elem(eng, st, simp(acc), spec.result)
+    val = decode_elem(eng, st, simp(acc), spec.result)
+    if ckey is not None:
+        _INLINE_CACHE.setdefault(ckey, []).append(({c.get_id() for c in st.pc}, val, new_facts, (list(st.pc), args)))
+    return val
+
+
+_INLINE_CACHE: dict = {}
 
 
 def unfold_spec(eng, st, spec: SpecFunc, args):
@@ -175,11 +208,14 @@ def unfold_spec(eng, st, spec: SpecFunc, args):
             continue              # the spec leaves this case unspecified: no axiom
         if o is None or o[0] != "return":
             raise Unsupported(f"spec function {spec.name} fell through")
-        cond = s2.pc[base_len:]
+        for c in s2.pc[base_len:]:
+            if c.get_id() in s2.facts and c.get_id() not in st.facts:
+                st.fact(c)
+        cond = [c for c in s2.pc[base_len:] if c.get_id() not in s2.facts]
         rhs = encode_elem(eng, s2, o[1], spec.result)
         axioms.append(z3.Implies(z3.And(*cond) if cond else z3.BoolVal(True), lhs == rhs))
     for a in axioms:
-        st.assume(a)
+        st.fact(a)
 
 
 # ---------------------------------------------------------------------------
@@ -204,9 +240,7 @@ def fresh(eng, st: State, ty, name: str) -> V:
         return VNone
     if h in ("bytes", "byteslike"):
         e = z3.Const(fresh_name(name), BytesS)
-        i = z3.Int(fresh_name("i"))
-        # type invariant: every element is a byte  (quantified; instantiated at each index the code touches)
-        st.assume(z3.ForAll([i], z3.Implies(z3.And(i >= 0, i < z3.Length(e)), z3.And(e[i] >= 0, e[i] <= 255))))
+        # type invariant "every element is a byte" is instantiated at each index the code reads (builtins.index_)
         if h == "bytes":
             return VBytes(e, KIND_BYTES)
         k = z3.Int(fresh_name(name + "_kind"))
@@ -347,9 +381,13 @@ def eval_clause(eng, st: State, node, extra=None):
     r = eng.ev(node, sc)
     disj = []
     for s2, v in r:
+        new = s2.pc[before:]
+        for c in new:
+            if c.get_id() in s2.facts and c.get_id() not in st.facts:
+                st.fact(c)          # always-true facts discovered while evaluating are kept
         if isinstance(v, Raised):
             continue
-        disj.append(z3.And(*(s2.pc[before:] + [truth(v)])))
+        disj.append(z3.And(*([c for c in new if c.get_id() not in s2.facts] + [truth(v)])))
     return simp(z3.Or(*disj)) if disj else z3.BoolVal(False)
 
 
@@ -614,6 +652,8 @@ def exec_loop_invariant(eng, n, st: State, key, spec):
                 old = s.env.f.get(name)
                 if name not in stored and name != idx and not is_mutable_ref(s, old):
                     continue          # only read / method-called on an immutable value
+                if name not in stored and isinstance(old, VRef) and s.heap[old.oid].kind in ("inst", "msg"):
+                    continue          # instance fields are havocked through the loop's `modifies`
                 s.env.f[name] = havoc_like(eng, s, old, name, ty)
             # variables first bound inside the loop are simply unbound at the head
         for lv in spec.get("modifies", []):
